@@ -9,7 +9,8 @@ from .c08 import table
 RULE = ("pairs of conditional tables X1->Y, X2->Y with strictly positive base rates, |X1|,|X2|,|Y| in 2..3, dyadic grids "
         "(random floats for well-formedness only), plus a structured-zero stream: tables with dogmatic rows and zero "
         "belief masses filtered (by running the exact model) to those whose merged table contains an impossible joint "
-        "value, and the example of the property text; unlabelled (owned / borrowed conditionals) and labelled "
+        "value, the example of the property text, and rare-event tables (a joint value whose likelihoods are small but "
+        "whose base-rate-weighted sum lies below machine epsilon); unlabelled (owned / borrowed conditionals) and labelled "
         "implementations, both parent orders, f32/f64; non-trivial = tables not all vacuous")
 NONE_KINDS = ("PANIC",)
 EXAMPLE = ([([5, 0, 11], 0), ([6, 6, 4], 0)], [([5, 5, 3], 3), ([3, 13, 0], 0)], [9, 7], [6, 10], [7, 5, 4])
@@ -53,6 +54,16 @@ def gen(rng, tier):
     c2 = [([x / 16 for x in b], u / 16) for b, u in ex[1]]
     out += mk("f64", 2, 2, 3, c1, c2, [x / 16 for x in ex[2]], [x / 16 for x in ex[3]], [x / 16 for x in ex[4]],
               "property_example", gid)
+    # rare events: a joint value (x1,z1) that is possible only under a rare y: its likelihoods P(x1z1|y) are small but
+    # far above machine epsilon while their base-rate-weighted sum lies below it (exact dyadic tables)
+    for ty in ("f64", "f32"):
+        for rep in range(2 if tier == "quick" else 40):
+            t = 2.0 ** -((24 if ty == "f64" else 10) + rng.below(2))
+            s4 = 2.0 ** -4
+            ay1 = 2.0 ** -((14 if ty == "f64" else 12) + rng.below(2))
+            rows = lambda: [([1.0 - s4, s4], 0.0), ([0.0, 1.0], 0.0)]
+            gid += 1
+            out += mk(ty, 2, 2, 2, rows(), rows(), [1.0 - t, t], [1.0 - t, t], [1.0 - ay1, ay1], "rare_event", gid)
     for ty in ("f64", "f32"):
         for n1 in (2, 3):
             for n2 in (2, 3):
